@@ -474,6 +474,12 @@ func runCheck(c *Config) int {
 		}
 	}()
 	evPath := filepath.Join(c.Verif, "evidence", c.Prop+".json")
+	outDir := filepath.Join(c.Verif, "out")
+	if v := os.Getenv("VERIF_OUT"); v != "" {
+		// scratch runs (seeded changes on a copy of the tree): evidence and replay files go elsewhere
+		outDir = v
+		evPath = filepath.Join(v, c.Prop+".evidence.json")
+	}
 	os.MkdirAll(filepath.Dir(evPath), 0o755)
 	os.Remove(evPath)
 	fail := func(code int, msg string) int {
@@ -771,7 +777,7 @@ func runCheck(c *Config) int {
 
 	// ---- replay files + output ----
 	exit := 0
-	os.MkdirAll(filepath.Join(c.Verif, "out", "replay"), 0o755)
+	os.MkdirAll(filepath.Join(outDir, "replay"), 0o755)
 	seen := map[string]bool{}
 	nviol := 0
 	for i, v := range confirmed {
@@ -781,7 +787,7 @@ func runCheck(c *Config) int {
 		}
 		seen[key] = true
 		nviol++
-		p := filepath.Join(c.Verif, "out", "replay", fmt.Sprintf("%s_%d.json", c.Prop, i))
+		p := filepath.Join(outDir, "replay", fmt.Sprintf("%s_%d.json", c.Prop, i))
 		writeJSON(p, map[string]interface{}{"property": c.Prop, "harness": v.Harness, "label": v.Label, "kind": v.Kind, "model": v.Model, "detail": v.Detail})
 		fmt.Printf("VIOLATION property=%s replay=%s\n", c.Prop, p)
 		fmt.Printf("  harness=%s assertion=%q model=%s\n", v.Harness, v.Label, compactModel(v.Model))
@@ -1186,6 +1192,7 @@ func runReplay(c *Config, file string) int {
 		return 2
 	}
 	c.Only = decl.Name
+	c.Tier = "thorough" // a replay file may name a harness of either tier
 	specs, _, err := c.makeSpecs(l, nil)
 	if err != nil || len(specs) == 0 {
 		fmt.Println("cannot build spec:", err)
